@@ -301,15 +301,19 @@ def check_curve_oracle(case, obs=None):
         if not has_yerr and got is not None:
             return "no y-uncertainties but sigma={}".format(got)
     # stationarity: gradient of chi2 at the returned parameters
+    ymag = max(abs(y) for y in ys) or 1.0
     for k in range(len(params)):
-        h = 1e-5 * (abs(params[k]) or 1.0)
+        gk = [fc.ref_grad(model, params, x)[k] for x in xs]
+        # step relative to the parameter, or (a parameter that came out ~0) to the change of it that moves the curve by
+        # a hundredth of the size of the data
+        natural = ymag / (max(abs(g) for g in gk) or 1.0)
+        h = 1e-5 * max(abs(params[k]), 1e-2 * natural)
 
         def at(t):
             p = list(params)
             p[k] += t
             return chi2_ref(model, p, xs, ys, ss)
         grad = (at(h) - at(-h)) / (2 * h)
-        gk = [fc.ref_grad(model, params, x)[k] for x in xs]
         scale = sum(2 * (abs(y) + abs(fc.ref_model(model, params, x))) / s ** 2 * abs(g)
                     for x, y, s, g in zip(xs, ys, ss, gk)) or 1.0
         if abs(grad) > grad_tol * scale:
